@@ -58,6 +58,13 @@ class Transport:
             raise SerializationError("unable to serialize: %s" % e)
         if self.max_size and len(payload) > self.max_size:
             raise PayloadExceededError("%d > %d" % (len(payload), self.max_size))
+        # what the peer gets is what it parses from the octets, not the object the session built
+        try:
+            parsed = self._serializer.unserialize(payload)
+            assert len(parsed) == 1 and type(parsed[0]) is type(msg)
+            msg = parsed[0]
+        except Exception as e:  # noqa
+            self.rec.bad("faithful", "the session sent a %s its peer cannot parse: %s %s" % (type(msg).__name__, type(e).__name__, str(e)[:80]))
         self.sent.append(msg)
         self.rec.on_send(msg)
         if self.sync_next:
@@ -410,8 +417,7 @@ class Recorder:
             ret = 42
             self.endpoint_expect[req]["ret"] = ([42], {})
         elif beh == "callresult":
-            ret = CallResult(1, "two", k=3)
-            self.endpoint_expect[req]["ret"] = ([1, "two"], {"k": 3})
+            ret, self.endpoint_expect[req]["ret"] = callresult(req)
         elif beh == "none":
             ret = None
             self.endpoint_expect[req]["ret"] = ([None], {})
@@ -429,8 +435,9 @@ class Recorder:
             self.endpoint_expect[req]["err"] = ("com.myapp.error.mapped", ["m1"], {})
             raise MappedError("m1")
         elif beh == "unmapped":
-            self.endpoint_expect[req]["err"] = ("wamp.error.runtime_error", ["u1", 2], {})
-            raise KeyError("u1", 2)
+            exc, eargs = plain_exception(req)
+            self.endpoint_expect[req]["err"] = ("wamp.error.runtime_error", eargs, {})
+            raise exc
         elif beh == "pending":
             d = txaio.create_future()
             self.pending_endpoints[req] = (d, details)
@@ -440,6 +447,9 @@ class Recorder:
 
 class MappedError(Exception):
     pass
+
+
+from harness.drivers.epshapes import callresult, plain_exception  # noqa: E402
 
 
 class FalsyService(dict):
@@ -832,8 +842,8 @@ def scenario(rng, profile):
                 R.endpoint_expect[rq]["ret"] = ([42], {})
                 txaio.resolve(d, 42)
             elif how == "callresult":
-                R.endpoint_expect[rq]["ret"] = ([1, "two"], {"k": 3})
-                txaio.resolve(d, CallResult(1, "two", k=3))
+                cr, R.endpoint_expect[rq]["ret"] = callresult(rq + 1)
+                txaio.resolve(d, cr)
             elif how == "none":
                 R.endpoint_expect[rq]["ret"] = ([None], {})
                 txaio.resolve(d, None)
@@ -850,8 +860,9 @@ def scenario(rng, profile):
                 R.endpoint_expect[rq]["err"] = ("com.myapp.error.mapped", ["m1"], {})
                 txaio.reject(d, MappedError("m1"))
             else:
-                R.endpoint_expect[rq]["err"] = ("wamp.error.runtime_error", ["u1", 2], {})
-                txaio.reject(d, KeyError("u1", 2))
+                exc, eargs = plain_exception(rq + 1)
+                R.endpoint_expect[rq]["err"] = ("wamp.error.runtime_error", eargs, {})
+                txaio.reject(d, exc)
             R.step(dict(ev="resolve", req=rq, how=how))
 
     # ---- the history
